@@ -9,7 +9,7 @@ from ..cfg import NORMAL, Node, handler_classes
 from ..core import Ctx
 from ..flow import ALL, find_path, names_in
 from ..model import AnalysisError, FunctionInfo, dotted, norm_text
-from .common import code_branches, effective_compare, facts_at, edge_target, handler_exits, handler_nodes, in_handler, kwarg, reachable_from
+from .common import code_branches, resolve_value, effective_compare, facts_at, edge_target, handler_exits, handler_nodes, in_handler, kwarg, reachable_from
 
 EXPLANATION = (
     "Static cross-check of the sibling StorageBackend implementations: (R1) both override every abstract method with "
@@ -39,6 +39,10 @@ def check(ctx: Ctx) -> None:
     r7(ctx)
     r8_work(ctx)
     r9_key_roundtrip(ctx)
+    r10_listing_exhaustive(ctx)
+    r11_utc_ages(ctx)
+    r12_stream_faithful(ctx)
+    r13_bodies_are_bytes(ctx)
 
 
 S3_WORK = {"read_file": ("boto.get_object",), "read_file_with_etag": ("boto.get_object",), "open_file": ("boto.get_object",),
@@ -138,6 +142,22 @@ def r9_key_roundtrip(ctx: Ctx, rid: str = "C20.R9") -> None:
         raise AnalysisError("_get_s3_key / list_files vanished from S3StorageBackend")
     pname = next((p.name for p in gk.params if p.name != "self"), "path")
     g = ctx.cfg(gk)
+    # the mapping is "prefix + '/' + path" for EVERY path: also one that starts with the prefix's own text, that names a sibling
+    # table, or that contains an empty segment (manifests, listings and the collector compare the literal spellings)
+    for prefix, rel in (("tbl", "tbl/x.parquet"), ("tbl", "tbl2/data/x.parquet"), ("tbl", "data//x.parquet"), ("wh/t1", "wh/t10/data/x.parquet")):
+        env = {"self.prefix": prefix, pname: rel}
+        keys = set()
+        for nid, store, _asm in explore(ctx, gk, [g.entry], env, stop=[n.id for n in g.nodes if n.kind == "return"]):
+            n = g.nodes[nid]
+            if n.kind == "return" and n.ast is not None:
+                scen = dict(env)
+                scen.update({k: v for k, v in store.items() if isinstance(k, str)})
+                from .common import concrete_eval
+                keys.add(concrete_eval(ctx, gk, n.ast.value, scen, nid))  # type: ignore[union-attr]
+        want = prefix + "/" + rel
+        ctx.ob(rid, gk, f"_get_s3_key is the plain prefix join for '{rel}'", None, keys == {want},
+               f"prefix '{prefix}': '{rel}' -> {sorted(map(repr, keys))} (expected '{want}'): a path is never taken for an already "
+               "prefixed key, a sibling table's key or a differently spelled one", text=f"{prefix}|{rel}")
     for label, prefix in (("with a table prefix", "tbl"), ("without a prefix", "")):
         rel = "data/x.parquet"
         env = {"self.prefix": prefix, pname: rel}
@@ -179,6 +199,223 @@ def r9_key_roundtrip(ctx: Ctx, rid: str = "C20.R9") -> None:
                    text=label)
         else:
             ctx.ob(rid, lf, f"list_files {label}", None, True, "listing not in the append-loop form (not evaluated)", nontrivial=False, text=label)
+
+
+def r10_listing_exhaustive(ctx: Ctx, rid: str = "C20.R10") -> None:
+    ctx.rule(rid, "the S3 listing is exhaustive: list_files walks every page - either botocore's paginator (no early exit from the "
+             "page loop), or a hand-written loop whose next request carries the response's NextContinuationToken and which ends "
+             "only when the response says so (IsTruncated false / no next token); a page being short, or the echoed "
+             "ContinuationToken, is not an end-of-listing signal", 1)
+    base = ctx.prog.cls(SB + ".S3StorageBackend")
+    for ci in family(ctx, base):
+        lf = ci.methods.get("list_files")
+        if lf is None:
+            if ci is base:
+                raise AnalysisError("S3StorageBackend.list_files vanished")
+            continue
+        scopes = [lf] + list(lf.nested.values())
+        manual = [(f, n) for f in scopes for n in ctx.cfg(f).calls() if n.id in ctx.cfg(f).reachable() and n.callee is not None
+                  and n.callee.kind == "prim" and n.callee.name == "boto.list_objects_v2"]
+        pag = [(f, n) for f in scopes for n in ctx.cfg(f).calls() if n.callee is not None and n.callee.kind == "prim"
+               and n.callee.name == "boto.get_paginator"]
+        if not manual:
+            ok = bool(pag)
+            why = "botocore paginator"
+            for f, n in pag:
+                g = ctx.cfg(f)
+                loops = [l for l in g.nodes if l.kind == "loop" and isinstance(l.ast, ast.For) and "paginate" in norm_text(l.ast.iter)
+                         or (l.kind == "loop" and isinstance(l.ast, ast.For) and any(
+                             isinstance(c, ast.Call) and isinstance(c.func, ast.Attribute) and c.func.attr == "paginate"
+                             for c in ctx.slicer(f).origins(l.ast.iter, l.id)["calls"]))]
+                for l in loops:
+                    brk = [x for x in g.nodes if isinstance(x.ast, ast.Break) and any(fr.kind == "loop" and fr.node is l.ast for fr in x.frames)
+                           and [fr.node for fr in x.frames if fr.kind == "loop"][0] is l.ast]
+                    if brk:
+                        ok, why = False, "the page loop can be left early (break): later pages are never requested"
+            ctx.ob(rid, lf, "every page of the listing is requested", pag[0][1] if pag else None, ok, why, text=ci.name)
+            continue
+        for f, n in manual:
+            g = ctx.cfg(f)
+            sl = ctx.slicer(f)
+            loops = [fr.node for fr in n.frames if fr.kind == "loop"]
+            if not loops:
+                ctx.ob(rid, f, "every page of the listing is requested", n, False, "a single list_objects_v2 request returns at most "
+                       "1000 keys: without a continuation loop everything after the first page is invisible", text=ci.name)
+                continue
+            lp_ast = loops[-1]
+            # (a) the continuation token sent comes from the response's NextContinuationToken
+            tok_srcs: List[ast.AST] = []
+            for x in ast.walk(lp_ast):
+                if isinstance(x, ast.Assign) and len(x.targets) == 1 and isinstance(x.targets[0], ast.Subscript) \
+                        and isinstance(x.targets[0].slice, ast.Constant) and x.targets[0].slice.value == "ContinuationToken":
+                    tok_srcs.append(x.value)
+                if isinstance(x, ast.keyword) and x.arg == "ContinuationToken":
+                    tok_srcs.append(x.value)
+                if isinstance(x, ast.Dict):
+                    tok_srcs += [v for k, v in zip(x.keys, x.values) if isinstance(k, ast.Constant) and k.value == "ContinuationToken"]
+            def from_next(e: ast.AST) -> bool:
+                host = next((m for m in g.nodes if m.ast is not None and any(y is e for y in ast.walk(m.ast))), None)
+                exprs = list(sl.origins(e, host.id)["exprs"]) + [e] if host is not None else [e]
+                keys = {c.value for x_ in exprs for c in ast.walk(x_) if isinstance(c, ast.Constant) and isinstance(c.value, str)}
+                return "NextContinuationToken" in keys and "ContinuationToken" not in (keys - {"NextContinuationToken"})
+            tok_ok = bool(tok_srcs) and all(from_next(e) for e in tok_srcs)
+            # (b) the loop ends only on the response's own end-of-listing signal
+            bad_exit = []
+            for b in [x for x in g.nodes if x.kind == "branch" and x.ast is not None and any(fr.kind == "loop" and fr.node is lp_ast for fr in x.frames)]:
+                leaves = False
+                for lab in ("true", "false"):
+                    t = edge_target(g, b, lab)
+                    if t is None:
+                        continue
+                    if isinstance(g.nodes[t].ast, ast.Break) or g.nodes[t].kind == "return" or not any(
+                            fr.kind == "loop" and fr.node is lp_ast for fr in g.nodes[t].frames):
+                        leaves = True
+                if not leaves:
+                    continue
+                exprs = list(sl.origins(b.ast, b.id)["exprs"]) + [b.ast]
+                consts = {c.value for x_ in exprs for c in ast.walk(x_) if isinstance(c, ast.Constant) and isinstance(c.value, str)}
+                uses_len = any(isinstance(c, ast.Call) and dotted(c.func) == "len" for c in ast.walk(b.ast))
+                if uses_len or not (consts & {"IsTruncated", "NextContinuationToken"}):
+                    bad_exit.append(norm_text(b.ast)[:50])
+            ok = tok_ok and not bad_exit
+            ctx.ob(rid, f, "every page of the listing is requested", n, ok,
+                   "continuation on NextContinuationToken until the response is not truncated" if ok else
+                   ("the next request does not carry the response's NextContinuationToken" if not tok_ok else
+                    f"the loop can end on {bad_exit}: a short or filtered page is legal S3 while more keys follow") +
+                   " - the listing stops early without an error (recovery misses metadata files, the collector misses live markers)",
+                   text=ci.name)
+
+
+def r11_utc_ages(ctx: Ctx, rid: str = "C20.R11") -> None:
+    ctx.rule(rid, "object ages are computed in UTC: a value taken from a response's LastModified (an aware UTC datetime) becomes "
+             "seconds only through .timestamp(), and is subtracted only from an aware now() - never time.mktime / timetuple / "
+             "replace(tzinfo=None) / a naive datetime.now() (on a host east of UTC every marker and every lock then looks hours "
+             "old: live markers are 'abandoned', live locks are 'expired')", 3)
+    n_uses = 0
+    for f in sorted(ctx.prog.functions.values(), key=lambda x: x.qname):
+        if isinstance(f.node, ast.Lambda):
+            continue
+        if not any(isinstance(c, ast.Constant) and c.value == "LastModified" for c in ast.walk(f.node)):
+            continue
+        # variables carrying the LastModified value (transitively through plain assignments)
+        lm: Set[str] = set()
+
+        def mentions(e: ast.AST) -> bool:
+            return any((isinstance(x, ast.Constant) and x.value == "LastModified") or (isinstance(x, ast.Name) and x.id in lm) for x in ast.walk(e))
+
+        changed = True
+        while changed:
+            changed = False
+            for x in ast.walk(f.node):
+                if isinstance(x, ast.Assign) and mentions(x.value):
+                    for t in x.targets:
+                        for nm in ([t] if isinstance(t, ast.Name) else [y for y in ast.walk(t) if isinstance(y, ast.Name)]):
+                            if nm.id not in lm:
+                                lm.add(nm.id)
+                                changed = True
+        for st in [x for x in ast.walk(f.node) if isinstance(x, ast.stmt) and not isinstance(x, (ast.FunctionDef, ast.AsyncFunctionDef, ast.ClassDef,
+                                                                                                 ast.If, ast.For, ast.While, ast.Try, ast.With))]:
+            exprs = [c for c in ast.iter_child_nodes(st) if isinstance(c, ast.expr)]
+            if not any(mentions(e) for e in exprs):
+                continue
+            bad = []
+            for e in exprs:
+                for x in ast.walk(e):
+                    if isinstance(x, ast.Call):
+                        d = dotted(x.func) or ""
+                        if d in ("time.mktime", "calendar.timegm") and any(mentions(a) for a in x.args):
+                            bad.append(d)
+                        if isinstance(x.func, ast.Attribute) and x.func.attr in ("timetuple", "utctimetuple") and mentions(x.func.value):
+                            bad.append("." + x.func.attr + "()")
+                        if isinstance(x.func, ast.Attribute) and x.func.attr == "replace" and mentions(x.func.value) and any(
+                                k.arg == "tzinfo" and isinstance(k.value, ast.Constant) and k.value.value is None for k in x.keywords):
+                            bad.append(".replace(tzinfo=None)")
+                    if isinstance(x, ast.BinOp) and isinstance(x.op, ast.Sub) and (mentions(x.left) or mentions(x.right)):
+                        other = x.right if mentions(x.left) else x.left
+                        for c in ast.walk(other):
+                            if isinstance(c, ast.Call) and (dotted(c.func) or "").split(".")[-1] in ("now", "utcnow", "today") \
+                                    and "datetime" in (dotted(c.func) or "") and not c.args and not c.keywords:
+                                bad.append(norm_text(c) + " (naive)")
+            n_uses += 1
+            ctx.ob(rid, f, "LastModified handled as an aware UTC instant", None, not bad,
+                   "`.timestamp()` / aware arithmetic" if not bad else f"{sorted(set(bad))}: UTC fields read as local time - ages are off by the "
+                   "host's UTC offset", text=norm_text(st)[:60], line=st.lineno)
+    if n_uses < 3:
+        raise AnalysisError(f"only {n_uses} uses of LastModified found")
+
+
+def r12_stream_faithful(ctx: Ctx, rid: str = "C20.R12") -> None:
+    ctx.rule(rid, "the S3 body stream is a faithful pipe: S3FileStream.read returns what body.read(n) returned - no handler that "
+             "turns a transport error into end-of-stream, no buffering / 'exhausted' state that can take a short read for the end - "
+             "and open_file hands out the S3FileStream wrapper (a multi-block Avro manifest cut at a block boundary otherwise "
+             "parses as a shorter, valid manifest)", 3)
+    from .common import state_writes
+    fs = ctx.prog.cls(SB + ".S3FileStream")
+    rd = fs.methods.get("read")
+    if rd is None:
+        raise AnalysisError("S3FileStream.read vanished")
+    g = ctx.cfg(rd)
+    swallowing = [hn for hn in handler_nodes(ctx, rd) if any(handler_exits(ctx, rd, hn)[k] for k in ("fallthrough", "return", "loop"))]
+    ctx.ob(rid, rd, "read swallows nothing", swallowing[0] if swallowing else None, not swallowing,
+           "every failure of the body read propagates to the parser / checksum loop")
+    sw = state_writes(ctx, rd, keep_report_only=False)
+    ctx.ob(rid, rd, "read keeps no stream state", sw[0][0] if sw else None, not sw,
+           "no buffer / end-of-stream flag" if not sw else f"stores {sw[0][1]}: a flag or buffer decides when the stream 'ended'")
+    rets = [r for r in g.nodes if r.kind == "return" and r.id in g.reachable() and r.ast is not None and r.ast.value is not None]  # type: ignore[union-attr]
+    direct = bool(rets)
+    for r in rets:
+        srcs = resolve_value(ctx, rd, r.ast.value, r.id)  # type: ignore[union-attr]
+        if not srcs or not all(isinstance(x, ast.Call) and isinstance(x.func, ast.Attribute) and x.func.attr == "read"
+                               and "body" in norm_text(x.func.value) for x, _a in srcs):
+            direct = False
+    ctx.ob(rid, rd, "read returns body.read(n) unchanged", rets[0] if rets else None, direct,
+           "the bytes handed on are exactly what the response body produced")
+    s3 = ctx.prog.cls(SB + ".S3StorageBackend")
+    for ci in family(ctx, s3):
+        of = ci.methods.get("open_file")
+        if of is None:
+            continue
+        ok = False
+        for f in [of] + list(of.nested.values()):
+            fg = ctx.cfg(f)
+            for r in [x for x in fg.nodes if x.kind == "return" and x.id in fg.reachable() and x.ast is not None and x.ast.value is not None]:  # type: ignore[union-attr]
+                for x, _a in resolve_value(ctx, f, r.ast.value, r.id):  # type: ignore[union-attr]
+                    if isinstance(x, ast.Call) and (dotted(x.func) or "").split(".")[-1] == "S3FileStream":
+                        ok = True
+        ctx.ob(rid, of, "open_file wraps the body in S3FileStream", None, ok,
+               "botocore's StreamingBody.__enter__ returns the RAW urllib3 stream: `with open_file(...)` readers would skip the "
+               "Content-Length check and see a dropped connection as a clean end of file", text=ci.name)
+
+
+def r13_bodies_are_bytes(ctx: Ctx, rid: str = "C20.R13") -> None:
+    ctx.rule(rid, "what a PUT uploads is bytes: the Body of every put_object of the backend (and of the lock providers) is a bytes "
+             "value - never a file-like object (io.BytesIO / open): a retried attempt would upload from the consumed stream's "
+             "end and store an empty object with status 200", 2)
+    n = 0
+    for f in sorted(ctx.prog.functions.values(), key=lambda x: x.qname):
+        if isinstance(f.node, ast.Lambda) or f.module.short not in ("storage_backend", "lock_provider"):
+            continue
+        g = ctx.cfg(f)
+        for c in g.calls():
+            if c.id not in g.reachable() or c.callee is None or c.callee.kind != "prim" or c.callee.name != "boto.put_object":
+                continue
+            body = kwarg(c.ast, "Body")
+            if body is None:
+                continue
+            n += 1
+            # the slice of the Body argument, looked up in the enclosing function too (closure variables)
+            exprs = set(ctx.slicer(f).origins(body, c.id)["exprs"]) | {body}
+            if f.parent is not None:
+                for nm in names_in(body):
+                    for x in ast.walk(f.parent.node):
+                        if isinstance(x, ast.Assign) and any(isinstance(t, ast.Name) and t.id == nm for t in x.targets):
+                            exprs.add(x.value)
+            streams = sorted({norm_text(x)[:40] for e in exprs for x in ast.walk(e) if isinstance(x, ast.Call)
+                              and (dotted(x.func) or "").split(".")[-1] in ("BytesIO", "open", "StringIO", "TemporaryFile", "NamedTemporaryFile", "SpooledTemporaryFile")})
+            ctx.ob(rid, f, "put_object Body is a bytes value", c, not streams,
+                   "bytes are re-sent in full on every attempt" if not streams else f"Body is a stream ({streams}): consumed by the first attempt")
+    if n < 2:
+        raise AnalysisError(f"only {n} put_object call(s) with a Body found")
 
 
 def _sig(f: FunctionInfo) -> List[Tuple[str, str, str]]:
@@ -232,6 +469,10 @@ def family(ctx: Ctx, ci) -> list:  # type: ignore[no-untyped-def]
     return out
 
 
+NOT_FOUND_CODES = {"NoSuchKey", "404", "NotFound"}
+RESPONSE_KEYS = {"Error", "Code", "ResponseMetadata", "HTTPStatusCode", "Message"}
+
+
 def r2(ctx: Ctx) -> None:
     ctx.rule("C20.R2", "not-found mapping: S3 read-type operations map NoSuchKey/404 to FileNotFoundError and re-raise everything "
              "else; exists() maps 404 to False only", 6)
@@ -258,7 +499,7 @@ def r2(ctx: Ctx) -> None:
                 for b, cs, mr, orr, _mo, _oo in code_branches(ctx, nf, hn):
                     codes += sorted(cs)
                     if code in cs and mr == {"FileNotFoundError"} and "reraise" in orr and "FileNotFoundError" not in orr:
-                        good_branch = True
+                        good_branch = (set(cs) - RESPONSE_KEYS) <= NOT_FOUND_CODES  # 403 / AccessDenied / 5xx are NOT "no such object"
                 ok = good_branch and not ex["fallthrough"] and not ex["return"] and code in codes
                 detail = f"codes {codes}; raises {raised}; swallow={bool(ex['fallthrough'] or ex['return'])}"
         if name == "get_size":
@@ -278,11 +519,22 @@ def r2(ctx: Ctx) -> None:
                 exx = handler_exits(ctx, nf, hn)
                 brs = [b for b in g.nodes if b.kind == "branch" and in_handler(b, hn.ast) and "404" in b.text]  # type: ignore[arg-type]
                 rer = any(r.raised == "reraise" for r in exx["raise"])
-                okx = bool(brs) and rer and not exx["return"]
-                detail = f"branch on 404: {bool(brs)}; other errors re-raised: {rer}"
+                absent = sorted({c for _b, cs, _mr, _or, _mo, _oo in code_branches(ctx, nf, hn) for c in cs} - RESPONSE_KEYS)
+                okx = bool(brs) and rer and not exx["return"] and set(absent) <= NOT_FOUND_CODES
+                detail = f"branch on 404: {bool(brs)}; codes read as 'absent': {absent}; other errors re-raised: {rer}"
         ctx.ob("C20.R2", ex_m, "exists: 404 -> False, everything else raises", None, okx, detail, text="exists")
         osk = s3.methods.get("open_seekable")
         ok = osk is not None and bool(ctx.calls(osk, name="get_size"))
+        if ok:
+            # ... and from nothing else: the size handed to the range reader is the object's real length (HEAD), never a number
+            # a caller / manifest entry declared (a wrong declared size puts the Parquet footer at the wrong offset)
+            og = ctx.cfg(osk)
+            for c in [n for n in og.calls() if n.callee is not None and n.callee.kind == "ctor" and n.callee.cls is not None
+                      and n.callee.cls.name == "S3RangeFile"]:
+                sz = kwarg(c.ast, "size", 3)
+                srcs = resolve_value(ctx, osk, sz, c.id) if sz is not None else []
+                if not srcs or not all(isinstance(x, ast.Call) and (dotted(x.func) or "").split(".")[-1] == "get_size" for x, _a in srcs):
+                    ok = False
         ctx.ob("C20.R2", osk or ex_m, "open_seekable learns the size through get_size (not-found mapping included)", None, ok, "", text="open_seekable")
 
 
@@ -329,8 +581,10 @@ def r3(ctx: Ctx) -> None:
                     if leaf in ("get_paginator",):
                         pass
                     if m.name == "write_file_cas":
-                        ctx.ob("C20.R3", f, "conditional PUT is not retried (by design)", n, f is m and not m.nested,
-                               "a retried conditional PUT could conflict with its own first attempt", nontrivial=False)
+                        in_loop = any(fr.kind == "loop" for fr in n.frames)
+                        ctx.ob("C20.R3", f, "conditional PUT is not retried (by design)", n, f is m and not m.nested and not in_loop,
+                               "a retried conditional PUT could conflict with its own first attempt"
+                               + (" (the PUT sits in a hand-written retry loop)" if in_loop else ""), nontrivial=False)
                         continue
                     if m.name == "__init__":
                         continue
